@@ -1495,7 +1495,13 @@ def _encode_host(host: str, validate_host: bool) -> str:
         try:
             ip = ip_address(raw_ip)
         except ValueError:
-            pass
+            if ":" in host and not validate_host:
+                # A colon can only come from a bracketed host, which has to be
+                # an IP literal; keep the brackets of an IPvFuture address, the
+                # netloc could not be split again without them.
+                if not re.match(r"\Av[a-fA-F0-9]+\..+\Z", host):
+                    raise ValueError(f"Invalid IPv6 address {host!r}") from None
+                return f"[{host.lower()}]"
         else:
             # These checks should not happen in the
             # LRU to keep the cache size small
